@@ -102,7 +102,10 @@ class OriginDomain:
         if isinstance(a, Seq) and isinstance(b, Seq) and a.kind == b.kind == "py" and len(a.items) == len(b.items):
             return Seq([self.join(x, y, node, silent) for x, y in zip(a.items, b.items)], "py")      # tuples of equal length join element-wise
         loc = lambda v: (isinstance(v, Seq) and v.kind in ("py", "pyabs")) or (isinstance(v, O) and v.local) or isinstance(v, Const)   # literals are fresh containers
-        return O(org_of(a) | org_of(b), local=loc(a) and loc(b))
+        out = O(org_of(a) | org_of(b), local=loc(a) and loc(b))
+        if getattr(a, "kind", None) is not None and getattr(a, "kind", None) == getattr(b, "kind", None):
+            out.kind = a.kind
+        return out
     def truth(self, v):
         if isinstance(v, Const):
             try: return bool(v.value)
@@ -164,7 +167,12 @@ class OriginDomain:
         if isinstance(recv, O) and owned(recv.org) and not base.startswith("self"):
             # attribute of a value derived from owned data: conservatively the same origins
             return O(recv.org | {f"A:{base}.{name}"})
-        return O({f"A:{base}.{name}"})
+        out = O({f"A:{base}.{name}"})
+        if name in ("style", "_style"):
+            # a style object (MagicProperties): its `.update` is the package's validating update (judged on its own, G4 item
+            # MagicProperties.update), not dict.update - it does not make the object hold the argument by reference
+            out.kind = "style"
+        return out
     def subscript(self, recv, idx_node, idx, node):
         if isinstance(recv, Seq) and recv.kind == "py" and isinstance(idx[0], Const) and isinstance(idx[0].value, int):
             try: return recv.items[idx[0].value]
@@ -236,6 +244,8 @@ class OriginDomain:
     def after_method(self, recv, name, args, kwargs, node):
         """d.update(x) / l.append(x) / d.setdefault(k, x): the container now holds x (by reference)"""
         if name not in ("update", "append", "extend", "insert", "setdefault", "add"):
+            return None
+        if getattr(recv, "kind", None) == "style":
             return None
         held = set()
         for v in list(args) + list(kwargs.values()):
